@@ -400,6 +400,17 @@ def _e_vine_from_dict(spec, rs, variant):
     return (lambda params: VineCopula.from_dict(params).to_dict()), (d,), {}, None
 
 
+def _slopes(spec, k):
+    """Increasing in every lane, decreasing in every lane (a survival function), or mixed: the
+    root finders only require opposite signs at the two ends of a bracket."""
+    how = spec.get('slope', 'up')
+    if how == 'down':
+        return -np.ones(k)
+    if how == 'mixed':
+        return np.where(np.arange(k) % 2 == 0, 1.0, -1.0)
+    return np.ones(k)
+
+
 def _roots_at_ends(spec, roots, lo, hi):
     """Brackets one end of which already is the root, exactly (inverting a cdf at 0 or 1 on a
     bracket that starts at the end of the support)."""
@@ -420,7 +431,9 @@ def _e_bisect(spec, rs, variant):
     lo = vec(rs, k, variant, -5.0, -2.0)
     hi = vec(rs, k, variant, 2.0, 5.0)
     _roots_at_ends(spec, roots, lo, hi)
-    return (lambda a, b: bisect(lambda x: (x - roots) ** 3 + (x - roots), a, b)), (lo, hi), {}, None
+    sgn = _slopes(spec, k)
+    return (lambda a, b: bisect(lambda x: sgn * ((x - roots) ** 3 + (x - roots)), a, b)), \
+        (lo, hi), {}, None
 
 
 @entry('chandrupatla', ['nd_f8', 'nd_strided'])
@@ -431,7 +444,9 @@ def _e_chandrupatla(spec, rs, variant):
     lo = vec(rs, k, variant, -5.0, -2.0)
     hi = vec(rs, k, variant, 2.0, 5.0)
     _roots_at_ends(spec, roots, lo, hi)
-    return (lambda a, b: chandrupatla(lambda x: np.tanh(x - roots), a, b)), (lo, hi), {}, None
+    sgn = _slopes(spec, k)
+    return (lambda a, b: chandrupatla(lambda x: sgn * np.tanh(x - roots), a, b)), \
+        (lo, hi), {}, None
 
 
 @entry('get_instance', ['proto_kwargs'])
@@ -451,7 +466,7 @@ def _e_datasets(spec, rs, variant):
 
 
 def _viz_frames(rs, d, n=12, index='range', ties=False, int_real=False, labels='str',
-                own_data_column=False):
+                own_data_column=False, with_inf=False):
     # 'int': the labels of a frame made from an ndarray (0, 1, 2, ...)
     names = ['a', 'b', 'c', 'e'][:d] if labels != 'int' else list(range(d))
     if own_data_column and labels != 'int' and d >= 3:
@@ -470,6 +485,11 @@ def _viz_frames(rs, d, n=12, index='range', ties=False, int_real=False, labels='
         synth = (synth * 2).round()
         real.iloc[1] = real.iloc[0]
         synth.iloc[2] = synth.iloc[0]
+    if with_inf:
+        # quantiles at probability 0 and 1 of an unbounded marginal are -inf / +inf: such rows
+        # are rows of the table like any other
+        real.iloc[0, real.shape[1] - 1] = np.inf
+        synth.iloc[1, synth.shape[1] - 1] = -np.inf
     if index == 'filtered':
         # what a caller gets from data[data.x > 0]: a non-contiguous index
         real = real.iloc[::2]
@@ -521,7 +541,8 @@ def _e_scatter(spec, rs, variant):
     with_cols = variant.endswith('_columns')
     real, _ = _viz_frames(rs, dims + (1 if with_cols else 0), index=spec.get('index', 'range'),
                           ties=spec.get('ties', False), labels=spec.get('labels', 'str'),
-                          own_data_column=spec.get('own_data_column', False) and with_cols)
+                          own_data_column=spec.get('own_data_column', False) and with_cols,
+                          with_inf=spec.get('with_inf', False))
     cols = _pick_columns(spec, real, dims) if with_cols else None
     fn = viz.scatter_2d if dims == 2 else viz.scatter_3d
     want_cols = list(cols) if cols else list(real.columns[:dims])
@@ -540,7 +561,8 @@ def _e_compare(spec, rs, variant):
                               index=spec.get('index', 'range'), ties=spec.get('ties', False),
                               int_real=spec.get('int_real', False),
                               labels=spec.get('labels', 'str'),
-                              own_data_column=spec.get('own_data_column', False) and with_cols)
+                              own_data_column=spec.get('own_data_column', False) and with_cols,
+                          with_inf=spec.get('with_inf', False))
     cols = _pick_columns(spec, real, dims) if with_cols else None
     fn = viz.compare_2d if dims == 2 else viz.compare_3d
     want_cols = list(cols) if cols else list(real.columns[:dims])
@@ -581,6 +603,7 @@ def _rand_spec(rng):
             'labels': rng.choice(['str', 'int']),
             'col_pick': rng.choice([None, rng.randrange(24)]),
             'own_data_column': rng.random() < 0.3,
+            'slope': rng.choice(['up', 'down', 'mixed']), 'with_inf': rng.random() < 0.25,
             'weights_kind': rng.choice(['counts_f8', 'counts_i8', 'list', 'normalised'])}
 
 
@@ -607,6 +630,8 @@ def fixed_runs(tier):
                                   'labels': ['str', 'int'][(len(runs) // 2) % 2],
                                   'col_pick': [None, 1, 2, 3, 5][len(runs) % 5],
                                   'own_data_column': len(runs) % 3 == 1,
+                                  'slope': ['up', 'down', 'mixed'][(len(runs) // 2) % 3],
+                                  'with_inf': len(runs) % 4 == 2,
                                   'weights_kind': ['counts_f8', 'counts_i8', 'list',
                                                    'normalised'][len(runs) % 4]},
                          'seed': 100 + len(runs), 'readonly': False, 'ops': []})
